@@ -179,9 +179,11 @@ impl MessageBufReader {
         }
     }
 
+    /// true only when the next unread byte is a zero length (end-of-stream mark).
+    /// A fully drained buffer is not the end of the stream: the caller has to feed more bytes.
     pub fn is_empty(&self) -> bool {
-        if self.start >= self.buf.len() {
-            true
+        if self.start >= self.end {
+            false
         } else {
             self.buf[self.start] == 0
         }
